@@ -52,7 +52,7 @@ def make(cfg):
 
         cplx = kind == "vdif_complex"
         nthread, nchan, spf, nframes = cfg.get("nthread", 1), cfg.get("nchan", 1), cfg.get("spf", 64), cfg.get("nframes", 8)
-        hdr = vdif.VDIFHeader.fromvalues(edv=1, time=Time("2020-03-01T00:00:00", precision=9), samples_per_frame=spf, nchan=nchan, bps=8,
+        hdr = vdif.VDIFHeader.fromvalues(edv=1, time=Time(cfg.get("t0", "2020-03-01T00:00:00"), precision=9), samples_per_frame=spf, nchan=nchan, bps=8,
                                          complex_data=cplx, thread_id=0, station=65, sample_rate=cfg.get("rate_khz", 16) * u.kHz)
         data = _rng_ints(cfg.get("seed", 0), (spf * nframes, nthread, nchan), cplx)
         path = os.path.join(d, tag + ".vdif")
